@@ -39,3 +39,24 @@ package bcrypt
 //@ func Cost
 //@ props C17
 //@ ensures implies(result1 == nil, 4 <= result0 && result0 <= 31)
+
+// GenerateFromPassword refuses exactly the passwords longer than 72 bytes with ErrPasswordTooLong: the refusing
+// return is reached only for such passwords, and they never get a hash. (newFromPassword - cost defaulting, salt,
+// the expensive key schedule - and Hash are trusted; their errors are passed on.)
+//@ func newFromPassword
+//@ trusted
+//@ modifies heap
+//@ ensures implies(result1 == nil, result0 != nil)
+
+//@ func (*hashed).Hash
+//@ trusted
+//@ modifies heap
+
+//@ func GenerateFromPassword
+//@ props C17
+//@ assume_global ErrPasswordTooLong != nil
+//@ modifies heap
+//@ ensures implies(len(password) > 72, result1 != nil && result0 == nil)
+//@ ensures implies(result1 != nil, result0 == nil)
+//@ check_at "return nil, ErrPasswordTooLong" len(password) > 72
+//@ canary ensures result1 != nil
